@@ -76,6 +76,16 @@ Theorem C14_hcl_tokens_tile :
 Proof. exact hcl_tokens_tile. Qed.
 Print Assumptions C14_hcl_tokens_tile.
 
+(* … and the premise always holds: for EVERY input and each of the three entry
+   scanners (LexConfig/LexExpression: MMain, LexTemplate: MBare,
+   ValidIdentifier: MIdentOnly) no action panics and the scan ends normally. *)
+Theorem C14_hcl_scan_done :
+  forall (entry : hmode) (data : list Z),
+  entry = MMain \/ entry = MBare \/ entry = MIdentOnly ->
+  exists its, hcl_scan entry data = (its, Done).
+Proof. exact hcl_scan_done. Qed.
+Print Assumptions C14_hcl_scan_done.
+
 (* The fast identifier-class test (first-byte buckets in a search tree) returns
    what the alternation of hclsyntax/unicode_derived.rl returns, for every
    first byte 0..255 and every continuation. *)
